@@ -38,6 +38,9 @@ def run(rep: Report, repo: Repo):
             raise AnchorError(f'LogicSim.c_prop: expected one dispatch loop in the m == {m} arm, found {len(ds)}')
         d = ds[0]
         arms += 1
+        if not isinstance(getattr(d, 'ops_iter', d.loop.iter), ast.Subscript):
+            rep.rule('C16.columns', 'the per-op loop visits every op once, in op-list order: the callback sees each evaluated signal once, after its operands are final (iterable evaluated)')
+            c01.iter_rule(rep, 'C16.columns', mod, cp, d, f'm == {m}')
         resolve_locs(d)
         # reachability of the loop for a given callback
         if m == 2:
